@@ -1457,6 +1457,8 @@ class FunctionBody:
             return '((%s)%s)' % (ct.c, self.expr(inner))
         if ck in ('IntegralToBoolean', 'FloatingToBoolean', 'PointerToBoolean'):
             return '((_Bool)(%s != 0))' % self.expr(inner)
+        if ck in ('DerivedToBase', 'UncheckedDerivedToBase') and ('shared_ptr' in self.qt(n) or 'unique_ptr' in self.qt(n)):
+            return self.expr(inner)          # smart pointer internals: the pointer itself
         if ck in ('DerivedToBase', 'UncheckedDerivedToBase'):
             path = n.get('path') or [None]
             e = self.expr(inner)
@@ -1522,6 +1524,16 @@ class FunctionBody:
             return self.expr(args[0])
         if ct.kind == 'ptr' and len(args) == 1:
             return self.expr(args[0])        # iterator conversions: iterators are plain pointers
+        if ct.c == 'struct wb_uniform_real':
+            real = [a for a in args if a.get('kind') != 'CXXDefaultArgExpr']
+            if len(real) == 2:
+                return '(struct wb_uniform_real){%s, %s}' % (self.expr(real[0]), self.expr(real[1]))
+            brk('uniform_real_distribution construction form', n)
+        if ct.c == 'struct wb_normal_dist':
+            real = [a for a in args if a.get('kind') != 'CXXDefaultArgExpr']
+            if len(real) == 2:
+                return '(struct wb_normal_dist){%s, %s}' % (self.expr(real[0]), self.expr(real[1]))
+            brk('normal_distribution construction form', n)
         if ct.kind == 'thread':
             if not args:
                 return 'wb_thread_none()'
@@ -1916,6 +1928,13 @@ class FunctionBody:
                 return self.call_user(cn, self.addr_of(args[0]), args[1:], decl, n)
             return self.call_user(cn, None, args, decl, n)
         # std operators
+        if opname == 'operator()' and len(args) == 2 and self.ct(args[0]).c in ('struct wb_uniform_real', 'struct wb_normal_dist'):
+            kind = 'uniform_real' if self.ct(args[0]).c == 'struct wb_uniform_real' else 'normal'
+            call = 'wb_%s_draw(%s, %s)' % (kind, self.addr_of(args[0]), self.addr_of(args[1]))
+            return self.tmp('double', call) if (self.pre is not None and not self.no_hoist) else call
+        if opname in ('operator->', 'operator*') and args[0].get('kind') == 'ImplicitCastExpr' and \
+                args[0].get('castKind') in ('DerivedToBase', 'UncheckedDerivedToBase') and 'shared_ptr' in self.qt(args[0]):
+            args = [args[0]['inner'][0]] + list(args[1:])
         t0 = self.ct(args[0])
         if opname == 'operator[]':
             o = self.expr(args[0])
